@@ -500,6 +500,9 @@ func (bh *Header) AddReference(r *Reference) error {
 		if r.uri == nil {
 			r.uri = er.uri
 		}
+		if len(r.otherTags) == 0 {
+			r.otherTags = append([]tagPair(nil), er.otherTags...)
+		}
 		// r takes the place of er in the header.
 		bh.refs[dupID] = r
 		r.owner = bh
